@@ -516,6 +516,60 @@ func accessorForm(fn *ssa.Function) (prev string, field string, ok bool) {
 	return "", "", false
 }
 
+// flatStores: the values a constructor stores into the fields of the object it
+// builds, by field name, with by-value sub-structs flattened - whether the
+// sub-struct is filled in place, assigned as a composite literal or returned
+// by a private helper ("fixed: mkFixedRegions()").
+func flatStores(mk *ssa.Function, typeName string) map[string]ssa.Value {
+	out := map[string]ssa.Value{}
+	var expand func(v ssa.Value, d int)
+	expand = func(v ssa.Value, d int) {
+		if d > 3 || v == nil {
+			return
+		}
+		v = stripConv(v)
+		switch x := v.(type) {
+		case *ssa.UnOp:
+			if al, ok := x.X.(*ssa.Alloc); ok && x.Op == token.MUL {
+				for _, r := range refs(al) {
+					if fa, ok := r.(*ssa.FieldAddr); ok {
+						for _, r2 := range refs(fa) {
+							if st, ok := r2.(*ssa.Store); ok && st.Addr == ssa.Value(fa) {
+								if _, isS := st.Val.Type().Underlying().(*types.Struct); isS {
+									expand(st.Val, d+1)
+								} else {
+									out[fieldNameAt(fa)] = st.Val
+								}
+							}
+						}
+					}
+				}
+			}
+		case *ssa.Call:
+			if cal := staticCallee(x); cal != nil && IsRepoFunc(cal) && cal.Blocks != nil {
+				for _, rs := range returnSources(cal, 0) {
+					expand(rs.Val, d+1)
+				}
+			}
+		}
+	}
+	for _, w := range FieldWrites(mk) {
+		if w.Val == nil {
+			continue
+		}
+		if _, isS := w.Val.Type().Underlying().(*types.Struct); isS {
+			if w.Type.Obj().Name() == typeName {
+				expand(w.Val, 0)
+			}
+			continue
+		}
+		if w.Type.Obj().Name() == typeName || isGroupingStruct(w.Type) {
+			out[w.Field] = w.Val
+		}
+	}
+	return out
+}
+
 func ruleK1(c *Ctx, id string) {
 	P, R := c.P, c.R
 	R.Rule(id, "regions are laid out cumulatively: BitmapBlockStart = nLog; BitmapInodeStart = BitmapBlockStart + NBlockBitmap; InodeStart = BitmapInodeStart + NInodeBitmap; DataStart = InodeStart + nInodeBlk; MaxBnum = Maxaddr = disk size", 6)
@@ -556,12 +610,7 @@ func ruleK1(c *Ctx, id string) {
 		return
 	}
 	R.Analysed[FuncName(mk)] = true
-	stores := map[string]ssa.Value{}
-	for _, w := range FieldWrites(mk) {
-		if w.Type.Obj().Name() == "FsSuper" {
-			stores[w.Field] = w.Val
-		}
-	}
+	stores := flatStores(mk, "FsSuper")
 	noRecv := &symCtx{}
 	isSize := func(v ssa.Value) bool {
 		if v == nil {
@@ -620,10 +669,10 @@ func ruleK2(c *Ctx, id string) {
 	mk := P.Func("super.MkFsSuper")
 	var ninodeblk int64 = -1
 	if mk != nil {
+		if v := flatStores(mk, "FsSuper")["nInodeBlk"]; v != nil {
+			ninodeblk, _ = constInt(stripConv(v))
+		}
 		for _, w := range FieldWrites(mk) {
-			if w.Field == "nInodeBlk" {
-				ninodeblk, _ = constInt(w.Val)
-			}
 			if w.Field == "NInodeBitmap" {
 				k, _ := constInt(w.Val)
 				R.Check(k == ninodebitmap, id, "NInodeBitmap = NINODEBITMAP", P.Pos(w.Instr.Pos()), "the inode bitmap has the configured number of blocks", "constant", "inode bitmap size drift")
